@@ -145,7 +145,24 @@ def run(ctx):
         else:
             codec_drift.append(m)
 
+    # real connections through the real ucrednetListener
+    lsum = [r for r in recs if r["k"] == "listener-summary"]
+    if len(lsum) != 1:
+        raise InfraError("driver wrote no listener summary")
+    lsum = lsum[0]
+    for m in [r for r in recs if r["k"] == "listener" and r["why"]]:
+        if m["got"] == "served" and m["spec"] != "served":
+            key = "listener %s socket [%s] uid=%s -> served" % (m["socket"], m["class"]["kind"], m["uid"])
+            if key not in seen:
+                seen.add(key)
+                violations.append(Violation(key=key, desc="a real connection over the %s socket (peer pid %s uid %s, RemoteAddr %r) was served by a %s "
+                                            "endpoint; the declared level does not allow it" % (m["socket"], m["pid"], m["uid"], m["remote_addr"], m["class"]["kind"]), replay=m))
+        else:
+            codec_drift.append(m)
+
     if not violations:      # vacuity guards only when there is nothing to report
+        if lsum["connections"] < 10:
+            raise InfraError("vacuity: only %d real socket connections" % lsum["connections"])
         if len(eps) < 20:
             raise InfraError("vacuity: only %d endpoint x method pairs found in the real api table" % len(eps))
         for want in ("served", "forbidden", "unauthorized", "cancelled", "error500"):
@@ -216,12 +233,14 @@ def run(ctx):
         "abstract_states_covered_by_real_requests": summ["abstract_states_covered"],
         "codec_cases": csum["cases"], "codec_cases_with_credentials": csum["parsed_ok"],
         "observations_trace_validated": n_obs,
+        "real_socket_connections": lsum["connections"], "real_socket_peer_uid": lsum["uid"],
         "violating_real_requests": summ["violations"], "drift": drift_n,
     }
     assumptions = [
         "the property is relative to the DECLARED access level of each endpoint/method (a changed declaration is not an alarm)",
         "polkit, the cgroup lookup of the calling snap and the peer credentials are injected at their seams "
-        "(polkitCheckAuthorization, cgroupSnapNameFromPid, RemoteAddr); the socket listener (SO_PEERCRED) is not exercised",
+        "(polkitCheckAuthorization, cgroupSnapNameFromPid, RemoteAddr); the real ucrednetListener (SO_PEERCRED) is exercised with a "
+        "few real unix-socket connections, necessarily only for the uid the check runs as",
         "handlers are replaced by a recording stub: only dispatch + access control run for real",
         "pid 0 and uid 4294967295 are the codec's 'no process'/'nobody' sentinels: they decode to NO credentials (fail closed), "
         "so 'round-trips exactly' is claimed for real credentials only",
